@@ -12,12 +12,106 @@ ALL = ["C%02d" % i for i in range(1, 20)]
 
 # id -> (technique, level text, level note, design ref)
 TEXT = {
+    "C01": ("lock-step differential testing against an independent reference model; encodings enumerated, states by rapid generators",
+            "Every one of the 930 implemented encodings is stepped from rapid-generated pre-states (edge-biased registers, all F values, wrap and aliasing shapes) and compared "
+            "with an independently written Z80 model on the complete architectural state, flags under the mask on which Z80 chips agree, memory image and port output; multi-Step "
+            "byte-soup programs are compared after every Step. A pass means no counterexample among the generated cases (10^7..10^9 per run), not absence.",
+            "Trusted: the reference model in harness/ref (algorithmic decode, bit-serial ALU, DAA table from Young), itself validated on every setup against 132 of the 134 "
+            "zexdoc/zexall CRCs (the two BIT n,(HL)/(IX+d) groups depend on MEMPTR, which the property leaves unspecified).",
+            "DESIGN.md sections 4.2, 5 C01"),
+    "C02": ("complete enumeration of the A x operand x F cube through CPU.Step against tables of a bit-serial ALU",
+            "All 559 encodings of the 8-bit ALU / rotate / shift / bit families are executed on the complete cube of the values they read (3.0e9 points) and compared with the "
+            "bit-serial reference ALU, including the written operand and every register the instruction does not name. The cube is finite and enumerated completely in both tiers.",
+            "Trusted: the bit-serial definitions in harness/ref/alu.go (ripple-carry adder, parity loop, DAA table), cross-validated by the zex CRCs; the other registers, d and PC are fixed "
+            "per encoding from the seed (their irrelevance is C01's subject).",
+            "DESIGN.md section 5 C02"),
+    "C03": ("enumeration of operand pairs x carry x preserved flag bits through CPU.Step against a wide-integer definition",
+            "Thorough enumerates all 2^32 operand pairs x carry for each of the 15 non-doubling ADD HL/IX/IY, ADC HL, SBC HL encodings, plus structured pairs x all 256 F, doubling forms and "
+            "INC/DEC ss over all 65536 values x 256 F; quick enumerates seed-positioned slices (2^24..2^28 pairs per encoding) plus the complete structured / doubling / INC-DEC parts. The whole register file is compared.",
+            "Trusted: the wide-integer flag definitions in c03_test.go, cross-checked on every run against the bit-serial adder on 1e6 points.",
+            "DESIGN.md section 5 C03"),
+    "C04": ("enumeration of all F / B values per conditional opcode x rapid-drawn placements against a directly written oracle, plus model-free round trips",
+            "For every drawn placement (PC, SP, target, stack bytes incl. wrap and stack-overlaps-instruction shapes) all 256 F values are run through all 28 conditional opcodes, all 256 B through DJNZ, "
+            "all 256 offsets through JR/DJNZ, and the unconditional / PUSH / POP forms once; post-state, exact stack reads and writes and 'no access when untaken' are compared with the manual's condition "
+            "table and push/pop rule; CALL;RET and PUSH;POP round trips are checked without any model.",
+            "Trusted: the condition table and stack rule written in c04_test.go (independent of harness/ref).",
+            "DESIGN.md section 5 C04"),
+    "C05": ("differential comparison of per-Step access logs (recording bus) against the reference model's own accesses",
+            "Every implemented encoding is stepped on a recording memory / port device whose port reads return data depending on port and read index; the per-address sequence of reads and writes and the "
+            "ordered port log are compared with the model's. Pointer aliasing puts operands on the instruction bytes and at 0xFFFF.",
+            "Trusted: the access list the model emits (appendix A.6); global order between different addresses is deliberately not compared.",
+            "DESIGN.md section 5 C05"),
+    "C06": ("exhaustive control-bit matrix x sampled data, and rapid state-machine histories, against an interrupt-controller model",
+            "The complete matrix type x mode x IFF1 x IFF2 x running/parked is enumerated with all RST p, CALL, all 128 even vectors; histories of EI/DI/RETN/RETI/IM/HALT steps and requests raised at any time "
+            "(nesting >= 3 in most sequences) are compared Step by Step; all 930 encodings are checked for flip-flop and handler-notification side effects. Both legal timings after EI and both legal return "
+            "addresses for a CPU parked on HALT are accepted.",
+            "Trusted: ref.Accept (appendix A.5). Known finding im0-executes-at-pc is recognised only when the emulator's result equals the model with exactly that quirk enabled.",
+            "DESIGN.md section 5 C06"),
+    "C07": ("metamorphic testing: interrupted run == uninterrupted run, over grammar-generated programs x every injection point",
+            "Register-transparent programs from a statement grammar (loops, calls, block instructions, DI/EI sections, three memory layouts) are run once undisturbed and then once per Step boundary and "
+            "interrupt kind with generated handlers; final registers, flags, IFF, memory outside the stack bytes below SP and port output must be equal and the pushed word must be the PC of the first instruction not yet executed.",
+            "No model needed for the verdict; the reference model is only used to recognise the known mode-0 finding exactly.",
+            "DESIGN.md section 5 C07"),
+    "C08": ("differential testing of Run against a Step-driven twin with the stop rule written from the property",
+            "Generated terminating programs and byte strings x breakpoint sets x up to six consecutive Run calls x stale HALT x device scripts that raise requests at a chosen access; error, registers incl. R, "
+            "HALT, memory, access count, pending request and port output are compared after every call.",
+            "Trusted: Step (decided by C01/C06) and the ten-line stop rule in c08_test.go.",
+            "DESIGN.md section 5 C08"),
+    "C09": ("closed-form functional specification of the whole block operation vs Step-until-done; lock-step model for self-modifying runs",
+            "All 16 block encodings from drawn counters (0, 1, 255, 256, 65535 ...), overlapping and wrapping pointers and CPIR hit positions are run to completion (up to 65536 Steps) and compared with a "
+            "closed-form specification: memory image, pointers, counters, documented flags, port log, exact Step count, one element per Step; single forms equal the first element of the repeat forms.",
+            "Trusted: the closed forms in c09_test.go (independent of ref.Step); runs whose writes hit the instruction itself are decided by ref.Step instead.",
+            "DESIGN.md section 5 C09"),
+    "C10": ("metamorphic testing (clone == original, interleaved == alone, concurrent == alone) under the race detector",
+            "Byte-soup programs with interrupts and rewrite/set-PC actions: a CPU rebuilt from copies of States, pending request, HALT and memory at snapshot points must continue exactly like the original; "
+            "a CPU stepped alternately with another one must reproduce its solo trace; 2..16 goroutines running their own CPUs must each reproduce their solo trace; built with -race.",
+            "The race detector only sees races in the schedules that ran; hidden state is detected only if it influences an executed trace.",
+            "DESIGN.md section 5 C10"),
+    "C11": ("metamorphic IX<->IY mirror over all 2 x 256 prefixed byte values x rapid-drawn states, no model",
+            "Every second byte after DD/FD and every fourth byte after DDCB/FDCB is run as DD form from S and FD form from swap(S); post-states must mirror and access sequences be identical apart from "
+            "the prefix byte; re-running with the other index register perturbed must change nothing else.",
+            "Cases where a data access hits the prefix byte's own address are excluded (the property exempts the prefix byte) and counted.",
+            "DESIGN.md section 5 C11"),
+    "C12": ("robustness fuzzing: deterministic prefix sweep, rapid-generated byte strings and (thorough) native coverage-guided go fuzzing, with a semantic oracle for invalid opcodes",
+            "Arbitrary bytes are decoded into registers (any IM), memory kind and length (biased to the addresses in use +-1), IO kind, program bytes at PC and at 0xFFF0.., and an interrupt schedule with any "
+            "Type and 0..65537 data bytes; up to 64 Steps under recover; an opcode logged as invalid must change only PC and R and consume exactly the bytes it read; programs seen to halt must make Run return.",
+            "Cannot show termination of Run for programs not observed to halt (outside the property).",
+            "DESIGN.md section 5 C12"),
+    "C13": ("schedule-owning fault injection: cancellation instants generated by the harness, Step-driven twin, goroutine accounting, race detector",
+            "Batches of Run calls over tight loops, block loops, I/O loops and terminating programs with the context cancelled before the call, from a bus callback at a chosen access, from a timer goroutine, "
+            "by deadline, or never; the returned error, a 10 s bound on the delay, equality with a twin stopped at the same access count (whole Steps), goroutine count after each batch and race reports are checked.",
+            "Bounded delay uses a wall-clock bound four orders of magnitude above normal behaviour; data races are only seen in executed schedules.",
+            "DESIGN.md section 5 C13"),
+    "C14": ("enumeration of all 256 R values x I values per encoding plus rapid-drawn states against the fetch-count rule",
+            "All 930 encodings x all 256 starting R x several I values are stepped and R/I compared with the fetch-count rule (1 / 2 / DDCB 2-or-3, bit 7 kept, LD R,A / LD I,A only writers); "
+            "LD A,R / LD A,I over all R x IFF2 x all F; multi-Step programs with block repeats and HALT.",
+            "Trusted: the prefix-class table of the reference model.",
+            "DESIGN.md section 5 C14"),
+    "C15": ("model-based stateful testing (rapid) against array / map models",
+            "Generated operation histories on DumbMemory (lengths 0..65536, addresses biased to len-1, len, len+1), DumbIO and pools of MapMemory values (Set/Put with wrap/Clone/Clear/Equal); "
+            "after every operation all touched addresses and neighbours are read back and compared with the model.",
+            "Nil maps and 'explicit default entry vs absent entry' in Equal are not asserted (ambiguous in the property).",
+            "DESIGN.md section 5 C15"),
     "C16": ("complete enumeration of the finite input space against bit definitions",
-            "Every (op, mask, F, A) combination and every 16-bit register value is executed through the public accessors and "
-            "compared with the bit-level definition; the space is finite and enumerated completely in both tiers, so for this "
-            "property a pass means there is no counterexample.",
+            "Every (op, mask, F, A) combination and every 16-bit register value is executed through the public accessors (directly and via CPU) and compared with the bit-level definition; "
+            "the space is finite and enumerated completely in both tiers, so a pass means there is no counterexample.",
             "Trusted: the definitions written in c16_test.go (any-of for GetFlag, OR / AND-NOT, Z80 bit positions).",
-            "DESIGN.md section 5, C16"),
+            "DESIGN.md section 5 C16"),
+    "C17": ("complete differential comparison of the Go tables with records parsed out of the canonical program images (SHA-256 pinned)",
+            "All 2 x 67 records x 65 bytes + message are located through the images' own pointer tables and compared byte for byte, in order, with internal/zex; counts must match. "
+            "The space is finite and compared completely; there is nothing to sample.",
+            "Trusted: the SHA-256 values of zexdoc.cim / zexall.cim taken from the pristine tree, and the 40-line image parser.",
+            "DESIGN.md section 5 C17"),
+    "C18": ("generated client programs run on the bundled CP/M machine against an expected-console-string oracle",
+            "Programs with drawn sequences of function-2 / function-9 calls (strings of 0..4096 bytes of every value but '$' at drawn addresses), unsupported functions and stray port accesses, "
+            "with a breakpoint after every CALL 5: console bytes, return address, SP, final halt at 0xFF03, intact code and warning count are checked.",
+            "After an unsupported function only 'no panic, output so far as requested' is asserted (the property is silent).",
+            "DESIGN.md section 5 C18"),
+    "C19": ("differential testing of the freshly built binaries against an independently written container encoder",
+            "cim2bin and cim2cas are built from the current tree and executed on drawn offsets (decimal / hex / default), lengths incl. exact fit to 0xFFFF, contents incl. container-magic bytes, and names of "
+            "0..12 characters (incl. default from the file name); outputs must be byte-equal to the encoder written from the property text.",
+            "Process execution makes cases expensive (ms each): hundreds (quick) to tens of thousands (thorough) of executions.",
+            "DESIGN.md section 5 C19"),
 }
 
 NOT_YET = "check not built yet in this session (see DESIGN.md build order); property is within reach of the technique"
@@ -55,9 +149,10 @@ def main():
             "add_only": True,
         },
         "engines": [
-            {"name": "core", "path": "harness/checks/core", "serves_properties": [p for p in ALL if check.CFG.get(p, {}).get("pkg") == "core"],
-             "kind_free_text": "Go test binary (rapid v1.3.0 generators + enumerations) linked against /repo's working tree via a "
-                               "replace directive; reference model in harness/ref; driver check.py shards it over the cores"},
+            {"name": pkg, "path": "harness/checks/" + pkg, "serves_properties": [p for p in ALL if check.CFG.get(p, {}).get("pkg") == pkg],
+             "kind_free_text": "Go test binary (rapid v1.3.0 generators, complete enumerations, native go fuzzing) linked against /repo's working tree "
+                               "via a replace directive; reference model in harness/ref; driver check.py builds it, shards it over the cores and merges the evidence"}
+            for pkg in ["core", "total", "zexchk", "cpm", "cim"]
         ],
         "checks": checks,
         "notes": "All checks are generated-input searches against explicit oracles (rapid generators, complete enumerations of finite "
